@@ -356,8 +356,24 @@ func exec(c *core.Ctx, cs Case) {
 		panic("c20: unknown type " + cs.Ty)
 	}
 	if cs.Fn == "Probe" {
-		utilProbes(c)
+		if len(cs.Tuples) > 0 {
+			ifaceProbes(c)
+		} else {
+			utilProbes(c)
+		}
 		return
+	}
+	if cs.Fn == "Clamp" && !cs.Oracle && t.kind != 'u' {
+		// lo > hi is outside the property: such calls are executed (they must not disturb anything else) but
+		// neither the oracle nor the model comparison looks at their result
+		forEachTuple(cs, func(tup []int64) {
+			if len(tup) == 3 && valueOf(t, tup[1]).Cmp(valueOf(t, tup[2])) > 0 {
+				cs.Oracle = true
+			}
+		})
+		if cs.Oracle {
+			c.Count("clamp_blocks_with_inverted_bounds_not_compared")
+		}
 	}
 	switch cs.Ty {
 	case "int8":
@@ -397,7 +413,11 @@ func exec(c *core.Ctx, cs Case) {
 	case "string":
 		execString(c, cs, t)
 	case "util":
-		execUtil(c, cs, t)
+		if cs.Fn == "IsZeroAny" || cs.Fn == "TernCastIface" {
+			execIface(c, cs, t)
+		} else {
+			execUtil(c, cs, t)
+		}
 	}
 }
 
@@ -478,6 +498,9 @@ func execInt[T typ.Integer](c *core.Ctx, cs Case, t tinfo) {
 // are given through an order preserving map into the integers (the identity
 // for integer types). Returns "?" for the other functions.
 func orderOracle(fn string, A []*big.Int, kind string, r *big.Int, one *big.Int) (string, bool) {
+	if fn == "Clamp" && len(A) == 3 && A[1].Cmp(A[2]) > 0 {
+		return "", false // lo > hi is outside the property: nothing is required, nothing is compared
+	}
 	if kind != "" {
 		if (fn == "Min" || fn == "Max") && len(A) == 0 && kind == "Explicit" {
 			return "", true
@@ -509,9 +532,6 @@ func orderOracle(fn string, A []*big.Int, kind string, r *big.Int, one *big.Int)
 		return "", distinct
 	case "Clamp":
 		v, lo, hi := A[0], A[1], A[2]
-		if lo.Cmp(hi) > 0 {
-			return "", false // outside the property (lo <= hi required); still compared with the model
-		}
 		want := v
 		if v.Cmp(lo) < 0 {
 			want = lo
@@ -633,14 +653,16 @@ func execFloat[T typ.Float](c *core.Ctx, cs Case, t tinfo) {
 		return a
 	}
 	enc := func(x T) *big.Int { return encFloat(float64(x)) }
-	var raw T // result of Sum/Product, which are not expressed in the order code
+	var raw T // result of Sum/Product (not expressed in the order code) and of Min/Max (to compare the bits)
 	call := func(tup []int64) *big.Int {
 		a := conv(tup)
 		switch cs.Fn {
 		case "Min":
-			return enc(typ.Min(a...))
+			raw = typ.Min(a...)
+			return enc(raw)
 		case "Max":
-			return enc(typ.Max(a...))
+			raw = typ.Max(a...)
+			return enc(raw)
 		case "Clamp":
 			return enc(typ.Clamp(a[0], a[1], a[2]))
 		case "Clamp01":
@@ -697,6 +719,16 @@ func execFloat[T typ.Float](c *core.Ctx, cs Case, t tinfo) {
 		A := make([]*big.Int, len(tup))
 		for i, b := range tup {
 			A[i] = val(b)
+		}
+		if (cs.Fn == "Min" || cs.Fn == "Max") && kind == "" && len(a) > 0 {
+			// "returns an argument": bit for bit one of them (which of two equal zeros is not fixed)
+			found := false
+			for _, x := range a {
+				found = found || math.Float64bits(float64(x)) == math.Float64bits(float64(raw))
+			}
+			if !found {
+				return fmt.Sprintf("%s result %v is not bit-identical to any argument", cs.Fn, raw), false
+			}
 		}
 		return orderOracle(cs.Fn, A, kind, r, encFloat(1))
 	}
@@ -1131,18 +1163,23 @@ func sampled(c *core.Ctx, t tinfo, gen func() int64, n int) {
 	}
 	exec(c, Case{Fn: "Compare", Ty: t.name, Tuples: pairsWithTies(r, n, gen)})
 	exec(c, Case{Fn: "Less", Ty: t.name, Tuples: pairsWithTies(r, n, gen)})
-	// Clamp: mostly lo <= hi (sorted by the type's own order through Compare of the model values is not
-	// available here, so draw, then swap using the oracle's value order)
+	// Clamp: lo <= hi always (the property requires it): draw, then order the bounds by the value order
 	tr := tuplesOf(n, fixed(3), gen)
-	for _, tp := range tr {
-		if r.Chance(90) && valueOf(t, tp[1]).Cmp(valueOf(t, tp[2])) > 0 {
+	var inverted [][]int64
+	for i, tp := range tr {
+		if valueOf(t, tp[1]).Cmp(valueOf(t, tp[2])) > 0 {
 			tp[1], tp[2] = tp[2], tp[1]
 		}
 		if r.Chance(10) {
 			tp[0] = tp[1+r.Intn(2)]
 		}
+		if i%20 == 0 && valueOf(t, tp[1]).Cmp(valueOf(t, tp[2])) < 0 {
+			inverted = append(inverted, []int64{tp[0], tp[2], tp[1]})
+		}
 	}
 	exec(c, Case{Fn: "Clamp", Ty: t.name, Tuples: tr})
+	// lo > hi: executed only (no oracle, not sent to the model)
+	exec(c, Case{Fn: "Clamp", Ty: t.name, Tuples: inverted, Oracle: true})
 	if t.kind == 's' {
 		return
 	}
@@ -1515,7 +1552,7 @@ func exhaustivePairs(c *core.Ctx, t tinfo) {
 		bs = append(bs, lo+d)
 	}
 	for i := 0; i < len(bs); i++ {
-		exec(c, Case{Fn: "Clamp", Ty: t.name, Dims: []Dim{{Lo: lo, N: 256}, {List: []int64{bs[i]}}, {List: bs}}})
+		exec(c, Case{Fn: "Clamp", Ty: t.name, Dims: []Dim{{Lo: lo, N: 256}, {List: []int64{bs[i]}}, {List: bs[i:]}}}) // lo <= hi
 	}
 }
 
@@ -1626,9 +1663,9 @@ func run(c *core.Ctx) {
 	if c.Tier == "quick" {
 		c.Note("compared with the model (quick tier): every int8/uint8/int16/uint16 value for Digits10, DigitsSign10; every int8/uint8 value and the 4 blocks of 4096 " +
 			"int16/uint16 values at the ends and around the middle for Abs, Clamp01; 96 of the 256 rows (ends, middle, two more blocks) of the int8/uint8 pair tables of " +
-			"Min, Max, Sum, Product; Clamp of every int8/uint8 v against 13x13 boundary (lo,hi); the thorough tier sends every block")
+			"Min, Max, Sum, Product; Clamp of every int8/uint8 v against the 91 boundary pairs lo <= hi; the thorough tier sends every block")
 	} else {
-		c.Note("compared with the model: all of the above except the pair tables of Compare, Less, Coal and the Clamp triples (Clamp: every v against 13x13 boundary (lo,hi))")
+		c.Note("compared with the model: all of the above except the pair tables of Compare, Less, Coal and the Clamp triples (Clamp: every v against the 91 boundary pairs lo <= hi)")
 	}
 	// 2. boundary-dense and random samples of every type
 	n0 := c.N(400, 2000, 3000)
@@ -1717,6 +1754,8 @@ func run(c *core.Ctx) {
 	exec(c, Case{Fn: "TernCast", Ty: "util", Tuples: tc})
 	exec(c, Case{Fn: "IsNil", Ty: "util", Tuples: tn})
 	exec(c, Case{Fn: "DerefZero", Ty: "util", Tuples: td})
+	ifaceCases(c)
+	encodingProbe(c)
 	utilProbes(c)
 	// 4. thorough: all 32 bit values
 	if c.Tier == "thorough" {
